@@ -45,3 +45,84 @@ PROPS["C02"] = {
          "trace_module": "ReplicaTrace", "trace_consts": dict(RANGER, Prop='"C02"')},
     ],
 }
+
+REPLICA_Q = {"name": "replica-quick", "module": "MCReplica", "workers": 8,
+             "consts": dict(ENTRY, Universe="<- U_quick", MaxOffered=3, HeadMonotone="TRUE", RemoveClearsHeads="TRUE"),
+             "invariants": ["StoreIsKeptOfOffered", "Normalized", "HeadsExact"], "properties": ["StepOk"]}
+
+# ------------------------------------------------------------------------------------------ C13
+PROPS["C13"] = {
+    "level": "model_checking",
+    "rule": "model: heads table after every reachable history of the replica model incl. removal/re-creation; all head "
+            "sets over 4 authors x timestamps {1,2,127,128} x limits around every item boundary; implementation: heads, "
+            "has_news_for_us after every step of seeded histories, encode/decode under ~9 limits per head set",
+    "assumptions": ["size limits >= 1 (an empty postcard vector already needs one byte)",
+                    "timestamps below 2^31 in traces (TLC integers); varint length formula transcribed from postcard"],
+    "models": [
+        REPLICA_Q,
+        {"name": "heads-encode", "module": "MCHeads", "init": "Init", "next": "Next", "workers": 4,
+         "consts": {"EncodeKeyedByAuthor": "TRUE"}, "invariants": ["MechSatisfiesSpec", "NewsLaw"]},
+    ],
+    "sensitivity": [
+        {"base": "replica-quick", "flip": {"HeadMonotone": "FALSE"}},
+        {"base": "replica-quick", "flip": {"RemoveClearsHeads": "FALSE"}},
+        {"base": "heads-encode", "flip": {"EncodeKeyedByAuthor": "FALSE"}},
+    ],
+    "drives": [
+        {"name": "replica-c13", "cmd": "replica", "args": {"profile": "all", "n": {"quick": 250, "thorough": 5000}},
+         "trace_module": "ReplicaTrace", "trace_consts": dict(RANGER, Prop='"C13"')},
+        {"name": "heads", "cmd": "heads", "args": {"n": {"quick": 300, "thorough": 6000}},
+         "trace_module": "HeadsTrace", "trace_consts": {"EncodeKeyedByAuthor": "TRUE"}},
+    ],
+}
+
+# ------------------------------------------------------------------------------------------ C12
+PROPS["C12"] = {
+    "level": "model_checking",
+    "rule": "model: all interleavings (<= 5 steps) of offers (valid, superseded, invalid; local and remote) with 2 "
+            "subscribers joining, unsubscribing or dropping their receiver; implementation: seeded histories with "
+            "subscribe / unsubscribe / drop-receiver / policy changes and both ingress paths, events drained after every step",
+    "assumptions": ["subscriber channels are unbounded in the harness (a full bounded channel blocks by design)",
+                    "on reconciliation messages the expected event sequence is judged only when the store itself followed "
+                    "the specification on that step (modular: admission defects are C02's to report)"],
+    "models": [
+        {"name": "events", "module": "MCEvents", "workers": 6,
+         "consts": dict(ENTRY, Universe="<- UEv", Slots="{1, 2}", MaxSteps=5, AnnounceOnlyApplied="TRUE",
+                        UnsubExact="TRUE", ThePolicy="<- Pol"),
+         "invariants": ["ExactlyOnePerApplied"]},
+    ],
+    "sensitivity": [
+        {"base": "events", "flip": {"AnnounceOnlyApplied": "FALSE"}},
+        {"base": "events", "flip": {"UnsubExact": "FALSE"}},
+    ],
+    "drives": [
+        {"name": "replica-c12", "cmd": "replica", "args": {"profile": "all", "n": {"quick": 250, "thorough": 5000}},
+         "trace_module": "ReplicaTrace", "trace_consts": dict(RANGER, Prop='"C12"')},
+    ],
+}
+
+# ------------------------------------------------------------------------------------------ C03
+PROPS["C03"] = {
+    "level": "model_checking",
+    "rule": "model: every store of <= 2 entries x every message of <= 2 (quick) / 3 (thorough) values with all "
+            "combinations of namespace / signature validity, malformed emptiness and timestamps at and beyond the future "
+            "bound, split over 1-2 item parts; implementation: entries forged at byte level through serde (11 tamper "
+            "classes + malformed emptiness + future bound), offered through both ingress paths mixed with valid entries",
+    "assumptions": ["ed25519 unforgeability is trusted: ground truth (nsok, sigok) of a forged entry is known by construction",
+                    "the future bound is exercised with a pinned clock (hook H2)"],
+    "models": [
+        {"name": "accept-quick", "module": "MCAccept", "init": "Init", "next": "Next", "workers": 6,
+         "consts": dict(RANGER, Contents="<- CQuick", MaxVals=2),
+         "invariants": ["OnlyAcceptableStored", "AsIfAbsent", "RejectedChangesNothing"], "tiers": ("quick",)},
+        {"name": "accept-thorough", "module": "MCAccept", "init": "Init", "next": "Next", "workers": 12, "timeout": 3000,
+         "consts": dict(RANGER, Contents="<- CThorough", MaxVals=3),
+         "invariants": ["OnlyAcceptableStored", "AsIfAbsent", "RejectedChangesNothing"], "tiers": ("thorough",)},
+    ],
+    "sensitivity": [
+        {"base": "accept-quick", "flip": {"ValidateEmptyInSync": "FALSE"}, "tiers": ("quick",)},
+    ],
+    "drives": [
+        {"name": "replica-c03", "cmd": "replica", "args": {"profile": "c03", "n": {"quick": 300, "thorough": 6000}},
+         "trace_module": "ReplicaTrace", "trace_consts": dict(RANGER, Prop='"C03"')},
+    ],
+}
